@@ -1,0 +1,14 @@
+// Copyright (C) 2024, Ava Labs, Inc. All rights reserved.
+// See the file LICENSE for licensing terms.
+
+//go:build verif
+
+package dsmr
+
+// VerifMinimumExpiry exposes the minimum expiry restored or set on the storage
+// to the verification harness. Only compiled with the verif build tag.
+func (s *ChunkStorage[T]) VerifMinimumExpiry() int64 {
+	s.lock.RLock()
+	defer s.lock.RUnlock()
+	return s.minimumExpiry
+}
